@@ -10,14 +10,17 @@ by DEFINING `∂f` from `prox`); that `∂f` is the sub-differential of the func
 the code calls is C07's matter (`C12.isProx_soft_threshold` shows it for the L1 proximal of the
 drivers), and "solution ⇒ KKT" (a constraint qualification) is assumed, not proved.
 
-NOT proved (said once, also in the evidence): that the non-smooth solvers CONVERGE; exactness
-of CG after dimension-many steps (`cg_exact_after_dim`: needs mutual conjugacy of ALL
-directions; `C12.cg_exact_after_dim_partial` proves the consecutive relations); existence of
-the governing point in the Douglas–Rachford converse.
+NOT proved (said once, also in the evidence): that the non-smooth solvers CONVERGE; existence of
+the governing point in the Douglas–Rachford converse.  ROUND 4 (end of file): Landweber converges
+linearly (`C12.landweber_converges_linearly`), CG is exact after dimension-many steps
+(`C12.cg_exact_after_dim`, via `C12.cg_all_directions_conjugate`), the power-method estimates
+are monotone (`C12.power_method_(selfadjoint_)estimate_mono`).
 -/
 import OdlModel.Model.Solvers
 import OdlModel.Lemmas.Solvers
 import OdlModel.Lemmas.SolversAnalysis
+import OdlModel.Lemmas.SolversConv
+import Mathlib.Analysis.SpecificLimits.Basic
 import OdlModel.Props.C11
 import Mathlib.Tactic.Positivity
 import Mathlib.Analysis.InnerProductSpace.Basic
@@ -165,8 +168,9 @@ theorem C12.cgn_residual_mono (A : E →ₗ[ℝ] F) (At : F →ₗ[ℝ] E) (hadj
   rw [← hinv.1, ← h1.1.1]
   exact h1.2
 
-/-- PARTIAL result towards `cg_exact_after_dim` (conjugate gradients exact after dimension-many
-steps; NOT proved: it needs mutual conjugacy of ALL directions): along the run of
+/-- Consecutive relations (the full statement is now `C12.cg_exact_after_dim`, with the mutual
+conjugacy of ALL directions in `C12.cg_all_directions_conjugate`; this one is kept because it needs
+the run condition at the `n`-th state only): along the run of
 `conjugate_gradient` for a symmetric `A`, every executed loop body (`n`-th state not stopped,
 `⟪p, A p⟫ ≠ 0`, `r ≠ 0`) produces a residual orthogonal to the previous residual and to the
 previous direction, and a direction `A`-conjugate to the previous direction — for all `n`. -/
@@ -1031,3 +1035,273 @@ directional derivative `-4`, the model returns the step `1/2` after one backtrac
 example : backtracking (fun x : ℚ => x * x) (1 / 2) (1 / 100) 10 1 (-2) (-4) = some (1 / 2) := by
   simp only [backtracking, btLoop, lincomb, absK, smul_eq_mul]
   norm_num
+
+/-! ## ROUND 4: convergence of Landweber, full Krylov argument for CG, monotone power-method estimates -/
+
+section
+variable {E F : Type} [NormedAddCommGroup E] [InnerProductSpace ℝ E]
+  [NormedAddCommGroup F] [InnerProductSpace ℝ F]
+
+/-- Landweber, error CONTRACTION per executed loop body (no projection): for `A` bounded above by `c`
+and BELOW by `μ` (`μ ‖u‖ ≤ ‖A u‖`: `A` injective with smallest singular value `≥ μ`), `0 ≤ ω ≤ 2/c²`,
+and `x*` a solution of the NORMAL equations `A*(A x* − b) = 0` (a least-squares solution; the system
+need not be consistent), one loop body of `landweber` from ANY state gives
+`‖x⁺ − x*‖² ≤ (1 − ω (2 − ω c²) μ²) ‖x − x*‖²`. -/
+theorem C12.landweber_error_contraction (A : E →ₗ[ℝ] F) (At : F →ₗ[ℝ] E) (hadj : AdjPair A At)
+    (c μ : ℝ) (hc0 : 0 ≤ c) (hc : ∀ u, ‖A u‖ ≤ c * ‖u‖) (hμ0 : 0 ≤ μ) (hμ : ∀ u, μ * ‖u‖ ≤ ‖A u‖)
+    (b : F) (ω : ℝ) (h0 : 0 ≤ ω) (h1 : ω * c ^ 2 ≤ 2) (xs : E) (hxs : At (A xs - b) = 0)
+    (s : LandweberS E F) :
+    ‖(LandweberP.step ⟨A, fun _ => At, b, ω, none⟩ s).x - xs‖ ^ 2 ≤
+      (1 - ω * (2 - ω * c ^ 2) * μ ^ 2) * ‖s.x - xs‖ ^ 2 := by
+  set e := s.x - xs with he
+  have hx : (LandweberP.step ⟨A, fun _ => At, b, ω, none⟩ s).x - xs = e - ω • At (A e) := by
+    have h2 : At (A s.x - b) = At (A e) := by
+      have : A s.x - b = A e + (A xs - b) := by rw [he, map_sub]; abel
+      rw [this, map_add, hxs, add_zero]
+    simp only [LandweberP.step, applyProj, lincomb, h2]; module
+  rw [hx, norm_sub_sq_real, norm_smul, inner_smul_right, ← hadj e (A e),
+    real_inner_self_eq_norm_sq, mul_pow, Real.norm_eq_abs, sq_abs]
+  have hb := adj_bound A At hadj c hc0 hc (A e)
+  have hb2 : ‖At (A e)‖ ^ 2 ≤ c ^ 2 * ‖A e‖ ^ 2 := by
+    have := mul_self_le_mul_self (norm_nonneg _) hb
+    nlinarith
+  have hm2 : μ ^ 2 * ‖e‖ ^ 2 ≤ ‖A e‖ ^ 2 := by
+    have := mul_self_le_mul_self (mul_nonneg hμ0 (norm_nonneg e)) (hμ e)
+    nlinarith
+  have hk : 0 ≤ ω * (2 - ω * c ^ 2) := mul_nonneg h0 (by linarith)
+  nlinarith [mul_le_mul_of_nonneg_left hb2 (mul_nonneg h0 h0), mul_le_mul_of_nonneg_left hm2 hk]
+
+/-- Landweber CONVERGES, linearly: with `0 < ω < 2/c²` and `0 < μ ≤ c` the factor
+`q = 1 − ω (2 − ω c²) μ²` lies in `[0, 1)`, the iterates of the executed loop satisfy
+`‖x_n − x*‖² ≤ qⁿ ‖x_0 − x*‖²` for all `n`, and `x_n → x*` (the unique least-squares solution).
+A genuine convergence theorem (all dimensions, all starts) for `LandweberP.step`, the state
+machine that the C11/C12 tie compares with `odl.solvers.landweber`. -/
+theorem C12.landweber_converges_linearly (A : E →ₗ[ℝ] F) (At : F →ₗ[ℝ] E) (hadj : AdjPair A At)
+    (c μ : ℝ) (hc : ∀ u, ‖A u‖ ≤ c * ‖u‖) (hμ0 : 0 < μ) (hμc : μ ≤ c) (hμ : ∀ u, μ * ‖u‖ ≤ ‖A u‖)
+    (b : F) (ω : ℝ) (h0 : 0 < ω) (h1 : ω * c ^ 2 < 2) (xs : E) (hxs : At (A xs - b) = 0)
+    (s : LandweberS E F) :
+    let q := 1 - ω * (2 - ω * c ^ 2) * μ ^ 2
+    0 ≤ q ∧ q < 1 ∧
+    (∀ n, ‖((LandweberP.step ⟨A, fun _ => At, b, ω, none⟩)^[n] s).x - xs‖ ^ 2 ≤ q ^ n * ‖s.x - xs‖ ^ 2) ∧
+    Filter.Tendsto (fun n => ((LandweberP.step ⟨A, fun _ => At, b, ω, none⟩)^[n] s).x) Filter.atTop (nhds xs) := by
+  intro q
+  have hc0 : 0 ≤ c := le_trans hμ0.le hμc
+  have hq0 : 0 ≤ q := by
+    have hk : 0 ≤ ω * (2 - ω * c ^ 2) := mul_nonneg h0.le (by linarith)
+    have hmc : μ ^ 2 ≤ c ^ 2 := by nlinarith
+    have := mul_le_mul_of_nonneg_left hmc hk
+    show 0 ≤ 1 - ω * (2 - ω * c ^ 2) * μ ^ 2
+    nlinarith [sq_nonneg (ω * c ^ 2 - 1)]
+  have hq1 : q < 1 := by
+    have : 0 < ω * (2 - ω * c ^ 2) * μ ^ 2 := by
+      have : 0 < 2 - ω * c ^ 2 := by linarith
+      positivity
+    show 1 - ω * (2 - ω * c ^ 2) * μ ^ 2 < 1
+    linarith
+  have hn : ∀ n, ‖((LandweberP.step ⟨A, fun _ => At, b, ω, none⟩)^[n] s).x - xs‖ ^ 2 ≤ q ^ n * ‖s.x - xs‖ ^ 2 := by
+    intro n
+    induction n with
+    | zero => simp
+    | succ n ih =>
+      rw [Function.iterate_succ_apply']
+      have := C12.landweber_error_contraction A At hadj c μ hc0 hc hμ0.le hμ b ω h0.le h1.le xs hxs
+        ((LandweberP.step ⟨A, fun _ => At, b, ω, none⟩)^[n] s)
+      calc _ ≤ q * ‖((LandweberP.step ⟨A, fun _ => At, b, ω, none⟩)^[n] s).x - xs‖ ^ 2 := this
+        _ ≤ q * (q ^ n * ‖s.x - xs‖ ^ 2) := mul_le_mul_of_nonneg_left ih hq0
+        _ = q ^ (n + 1) * ‖s.x - xs‖ ^ 2 := by ring
+  refine ⟨hq0, hq1, hn, ?_⟩
+  rw [tendsto_iff_norm_sub_tendsto_zero]
+  have hsq : Filter.Tendsto (fun n => ‖((LandweberP.step ⟨A, fun _ => At, b, ω, none⟩)^[n] s).x - xs‖ ^ 2)
+      Filter.atTop (nhds 0) := by
+    have hg : Filter.Tendsto (fun n : ℕ => q ^ n * ‖s.x - xs‖ ^ 2) Filter.atTop (nhds 0) := by
+      have := (tendsto_pow_atTop_nhds_zero_of_lt_one hq0 hq1).mul_const (‖s.x - xs‖ ^ 2)
+      simpa using this
+    exact squeeze_zero (fun n => sq_nonneg _) hn hg
+  have := (Real.continuous_sqrt.tendsto 0).comp hsq
+  simpa [Function.comp_def, Real.sqrt_sq (norm_nonneg _)] using this
+
+/-- Non-vacuity of the Landweber convergence hypotheses: `A = At = 2·` on `ℝ`, `c = 2`, `μ = 1`,
+`ω = 1/4`, `b = 6`, `x* = 3`: the contraction factor is `3/4`. -/
+example : ∃ (A At : ℝ →ₗ[ℝ] ℝ) (c μ ω b xs : ℝ), AdjPair A At ∧ (∀ u, ‖A u‖ ≤ c * ‖u‖) ∧ 0 < μ ∧
+    μ ≤ c ∧ (∀ u, μ * ‖u‖ ≤ ‖A u‖) ∧ 0 < ω ∧ ω * c ^ 2 < 2 ∧ At (A xs - b) = 0 ∧
+    1 - ω * (2 - ω * c ^ 2) * μ ^ 2 = 3 / 4 := by
+  refine ⟨(2 : ℝ) • LinearMap.id, (2 : ℝ) • LinearMap.id, 2, 1, 1 / 4, 6, 3, ?_, ?_, by norm_num,
+    by norm_num, ?_, by norm_num, by norm_num, ?_, by norm_num⟩
+  · intro x y; simp only [LinearMap.smul_apply, LinearMap.id_apply, smul_eq_mul, Real.inner_apply]
+    ring
+  · intro u; simp
+  · intro u; simp only [LinearMap.smul_apply, LinearMap.id_apply, smul_eq_mul, norm_mul,
+      Real.norm_ofNat]; nlinarith [norm_nonneg u]
+  · simp only [LinearMap.smul_apply, LinearMap.id_apply, smul_eq_mul]; norm_num
+
+/-- `power_method_opnorm`, branch `op.adjoint is op`, for a SYMMETRIC operator (no definiteness
+needed): from the first loop body on, the sequence of estimates `‖A x_k‖` is monotonically
+NON-DECREASING in the number of loop bodies — whatever the zero / closeness tests answer (after a
+`break` or a raise the state, hence the estimate, no longer changes).  Together with
+`C12.power_method_selfadjoint_le_opnorm`: the estimates increase towards, and never exceed, `‖A‖`;
+they may stall below it (F21).  The estimate BEFORE the first loop body is `‖xstart‖` (code as it
+is) and is not part of the monotone sequence. -/
+theorem C12.power_method_selfadjoint_estimate_mono (A : E →ₗ[ℝ] E)
+    (hsym : ∀ u v, ⟪A u, v⟫ = ⟪u, A v⟫) (isZero : ℝ → Bool)
+    (hz : ∀ k, k = 0 → isZero k = true) (isClose : ℝ → ℝ → Bool) (x0 : E) (n : Nat) :
+    ((powerSelfReal A isZero isClose).step^[n + 1] ((powerSelfReal A isZero isClose).init x0)).opnorm ≤
+      ((powerSelfReal A isZero isClose).step^[n + 2] ((powerSelfReal A isZero isClose).init x0)).opnorm := by
+  have hs := powerSelf_mono_step A hsym isZero hz isClose
+  have hJ : PowerMonoInv (fun x => ‖A x‖)
+      ((powerSelfReal A isZero isClose).step^[n + 1] ((powerSelfReal A isZero isClose).init x0)) := by
+    rw [Function.iterate_succ_apply]
+    apply iterate_inv _ (PowerMonoInv (fun x => ‖A x‖)) _ n _
+      ((hs _).1 (powerSelf_init_inv A isZero hz isClose x0))
+    intro s h
+    exact (hs s).1 (fun hf hd => (h hf hd).1)
+  rw [Function.iterate_succ_apply' (n := n + 1)]
+  exact (hs _).2 hJ
+
+/-- The same for the general branch (`op.adjoint is not op`, iteration on `A* A`, estimate
+`√‖A* A x_k‖`): for every operator with an adjoint (`AdjPair`), the estimates after `n+1` and
+`n+2` loop bodies (`maxiter = 2(n+1)`, `2(n+2)`) are ordered, for all `n`, all starts. -/
+theorem C12.power_method_estimate_mono (A : E →ₗ[ℝ] F) (At : F →ₗ[ℝ] E) (hadj : AdjPair A At)
+    (isZero : ℝ → Bool) (hz : ∀ k, k = 0 → isZero k = true) (isClose : ℝ → ℝ → Bool) (x0 : E) (n : Nat) :
+    ((powerReal A At isZero isClose).stepNormal^[n + 1] ((powerReal A At isZero isClose).init x0)).opnorm ≤
+      ((powerReal A At isZero isClose).stepNormal^[n + 2] ((powerReal A At isZero isClose).init x0)).opnorm := by
+  have hs := power_mono_step A At hadj isZero hz isClose
+  have hJ : PowerMonoInv (fun x => Real.sqrt ‖At (A x)‖)
+      ((powerReal A At isZero isClose).stepNormal^[n + 1] ((powerReal A At isZero isClose).init x0)) := by
+    rw [Function.iterate_succ_apply]
+    apply iterate_inv _ (PowerMonoInv (fun x => Real.sqrt ‖At (A x)‖)) _ n _
+      ((hs _).1 (power_init_inv A At isZero hz isClose x0))
+    intro s h
+    exact (hs s).1 (fun hf hd => (h hf hd).1)
+  rw [Function.iterate_succ_apply' (n := n + 1)]
+  exact (hs _).2 hJ
+
+/-- Non-vacuity: `A = 2·` on `ℝ` is symmetric; with tests that never fire the estimates are ordered. -/
+example (x0 : ℝ) (n : Nat) :
+    let P := powerSelfReal ((2 : ℝ) • LinearMap.id) (fun k => decide (k = 0)) (fun _ _ => false)
+    (P.step^[n + 1] (P.init x0)).opnorm ≤ (P.step^[n + 2] (P.init x0)).opnorm :=
+  C12.power_method_selfadjoint_estimate_mono _ (fun u v => by
+    simp only [LinearMap.smul_apply, LinearMap.id_apply, smul_eq_mul, Real.inner_apply]; ring)
+    _ (fun k hk => by simp [hk]) _ x0 n
+
+end
+
+section
+variable {E : Type} [NormedAddCommGroup E] [InnerProductSpace ℝ E]
+
+/-- `conjugate_gradient`, the full Krylov relations (this replaces the "consecutive only" of
+`C12.cg_exact_after_dim_partial`): for a symmetric `A`, as long as the first `n` loop bodies are
+executed completely (not stopped, `⟪p, A p⟫ ≠ 0`, `r ≠ 0`), ALL residuals `r_0 … r_n` of the
+executed state machine are mutually orthogonal and ALL directions `p_0 … p_n` are mutually
+`A`-conjugate. -/
+theorem C12.cg_all_directions_conjugate (A : E →ₗ[ℝ] E) (hsym : ∀ u v, ⟪A u, v⟫ = ⟪u, A v⟫)
+    (b x0 junk : E) (n : Nat)
+    (hrun : ∀ k < n, ((cgReal A b).step^[k] ((cgReal A b).init x0 junk)).stopped = false ∧
+      ⟪((cgReal A b).step^[k] ((cgReal A b).init x0 junk)).p,
+        A ((cgReal A b).step^[k] ((cgReal A b).init x0 junk)).p⟫ ≠ 0 ∧
+      ((cgReal A b).step^[k] ((cgReal A b).init x0 junk)).sqnormROld ≠ 0) :
+    ∀ j ≤ n, ∀ i < j,
+      ⟪((cgReal A b).step^[j] ((cgReal A b).init x0 junk)).r,
+        ((cgReal A b).step^[i] ((cgReal A b).init x0 junk)).r⟫ = 0 ∧
+      ⟪((cgReal A b).step^[j] ((cgReal A b).init x0 junk)).p,
+        A ((cgReal A b).step^[i] ((cgReal A b).init x0 junk)).p⟫ = 0 := by
+  set S : ℕ → CgS ℝ E := fun k => (cgReal A b).step^[k] ((cgReal A b).init x0 junk) with hS
+  have hsucc : ∀ k, S (k + 1) = (cgReal A b).step (S k) := fun k =>
+    Function.iterate_succ_apply' _ _ _
+  have hinv : ∀ k, CgInv2 A b (S k) := fun k =>
+    iterate_inv (cgReal A b).step (CgInv2 A b) (cg_inv2_step A hsym b) k _ (cg_init_inv2 A b x0 junk)
+  exact cg_all_conj_abstract A hsym (fun k => (S k).r) (fun k => (S k).p)
+    (fun k => (S k).sqnormROld / ⟪(S k).p, A (S k).p⟫)
+    (fun k => ‖(S (k + 1)).r‖ ^ 2 / (S k).sqnormROld) n
+    (fun k hk => by
+      show (S (k + 1)).r = _
+      rw [hsucc]; exact (cg_step_eqs A b (S k) (hrun k hk).1 (hrun k hk).2.1).1)
+    (fun k hk => by
+      show (S (k + 1)).p = _
+      rw [hsucc]; exact (cg_step_eqs A b (S k) (hrun k hk).1 (hrun k hk).2.1).2.1)
+    (by show (S 0).p = (S 0).r; simp only [hS, Function.iterate_zero, id, CgP.init, cgReal])
+    (fun k hk => div_ne_zero (hrun k hk).2.2 (hrun k hk).2.1)
+    (fun k hk => by
+      have := (cg_step2 A hsym b (S k) (hinv k) (hrun k hk).1 (hrun k hk).2.1 (hrun k hk).2.2).2
+      show ⟪(S (k + 1)).r, (S k).r⟫ = 0 ∧ ⟪(S (k + 1)).p, A (S k).p⟫ = 0
+      rw [hsucc]; exact ⟨this.1, this.2.2⟩)
+
+/-- `conjugate_gradient` IS EXACT AFTER DIMENSION-MANY STEPS: on a finite-dimensional space, for a
+symmetric positive definite `A`, every start `x0` and every right-hand side, the iterate of the
+executed loop after `n ≥ dim E` loop bodies solves `A x = b` (in exact arithmetic; `n + 1`
+non-zero mutually orthogonal residuals cannot exist for `n ≥ dim E`, a zero residual persists, and
+a `return` only happens at a zero residual). -/
+theorem C12.cg_exact_after_dim [FiniteDimensional ℝ E] (A : E →ₗ[ℝ] E)
+    (hsym : ∀ u v, ⟪A u, v⟫ = ⟪u, A v⟫) (hpd : ∀ u, u ≠ 0 → 0 < ⟪u, A u⟫) (b x0 junk : E)
+    (n : Nat) (hn : Module.finrank ℝ E ≤ n) :
+    A ((cgReal A b).step^[n] ((cgReal A b).init x0 junk)).x = b := by
+  set S : ℕ → CgS ℝ E := fun k => (cgReal A b).step^[k] ((cgReal A b).init x0 junk) with hS
+  have hsucc : ∀ k, S (k + 1) = (cgReal A b).step (S k) := fun k =>
+    Function.iterate_succ_apply' _ _ _
+  have hdef : ∀ u, ⟪u, A u⟫ = 0 → u = 0 := by
+    intro u hu; by_contra h; exact (ne_of_gt (hpd u h)) hu
+  have hinv : ∀ k, CgInv2 A b (S k) := fun k =>
+    iterate_inv (cgReal A b).step (CgInv2 A b) (cg_inv2_step A hsym b) k _ (cg_init_inv2 A b x0 junk)
+  have hstop : ∀ k, CgStopInv (S k) := by
+    intro k
+    induction k with
+    | zero => exact cg_stop_init A b x0 junk
+    | succ k ih => rw [hsucc]; exact cg_stop_step A hdef b (S k) (hinv k).1 ih
+  -- zero residual persists
+  have hzero : ∀ k, (S k).r = 0 → ∀ j, (S (k + j)).r = 0 := by
+    intro k hk j
+    induction j with
+    | zero => exact hk
+    | succ j ih =>
+      rw [← Nat.add_assoc, hsucc]; exact (cg_r_zero_stays A b _ (hinv _).1 ih).1
+  suffices h : (S n).r = 0 by
+    have := (hinv n).1.1; rw [h] at this
+    exact (sub_eq_zero.mp this.symm).symm
+  by_contra hne
+  set d := Module.finrank ℝ E with hd
+  have hnz : ∀ k ≤ d, (S k).r ≠ 0 := by
+    intro k hk h0
+    apply hne
+    have := hzero k h0 (n - k)
+    rwa [Nat.add_sub_cancel' (le_trans hk hn)] at this
+  have hrun : ∀ k < d + 1, (S k).stopped = false ∧ ⟪(S k).p, A (S k).p⟫ ≠ 0 ∧ (S k).sqnormROld ≠ 0 := by
+    intro k hk
+    have hr := hnz k (Nat.le_of_lt_succ hk)
+    have hsq : (S k).sqnormROld ≠ 0 := by
+      rw [(hinv k).1.2.2]; exact pow_ne_zero 2 (norm_ne_zero_iff.mpr hr)
+    refine ⟨?_, ?_, hsq⟩
+    · cases hh : (S k).stopped with
+      | false => rfl
+      | true => exact absurd (hstop k hh) hr
+    · intro h0
+      have hp := hdef _ h0
+      have := (hinv k).1.2.1; rw [hp, inner_zero_right] at this
+      exact hsq (by rw [(hinv k).1.2.2]; exact this.symm)
+  have hall := C12.cg_all_directions_conjugate A hsym b x0 junk (d + 1) hrun
+  have hli : LinearIndependent ℝ (fun i : Fin (d + 1) => (S i).r) := by
+    refine linearIndependent_of_ne_zero_of_inner_eq_zero (v := fun i : Fin (d + 1) => (S i).r)
+      (fun i : Fin (d + 1) => hnz i (Nat.le_of_lt_succ i.2)) ?_
+    intro i j hij
+    show ⟪(S i).r, (S j).r⟫ = 0
+    rcases Nat.lt_or_gt_of_ne (fun h => hij (Fin.ext h)) with h | h
+    · rw [real_inner_comm]; exact (hall j (Nat.le_of_lt j.2) i h).1
+    · exact (hall i (Nat.le_of_lt i.2) j h).1
+  have := hli.fintype_card_le_finrank
+  simp only [Fintype.card_fin] at this
+  omega
+
+/-- Non-vacuity: `E = ℝ` (`dim = 1`), `A = 2·`, `b = 6`, start `0`: one loop body gives `2 x = 6`;
+and the run condition of `C12.cg_all_directions_conjugate` holds for `n = 1` at this start. -/
+example :
+    ((2 : ℝ) • LinearMap.id : ℝ →ₗ[ℝ] ℝ)
+      ((cgReal ((2 : ℝ) • LinearMap.id) (6 : ℝ)).step^[1] ((cgReal ((2 : ℝ) • LinearMap.id) (6 : ℝ)).init 0 0)).x = 6 ∧
+    (((cgReal ((2 : ℝ) • LinearMap.id) (6 : ℝ)).init 0 0).stopped = false ∧
+      ((cgReal ((2 : ℝ) • LinearMap.id) (6 : ℝ)).init 0 0).sqnormROld ≠ 0) := by
+  constructor
+  · apply C12.cg_exact_after_dim
+    · intro u v; simp only [LinearMap.smul_apply, LinearMap.id_apply, smul_eq_mul, Real.inner_apply]; ring
+    · intro u hu; simp only [LinearMap.smul_apply, LinearMap.id_apply, smul_eq_mul, Real.inner_apply]
+      have := mul_self_pos.mpr hu; nlinarith
+    · simp
+  · simp [CgP.init, cgReal, lincomb]
+
+end
